@@ -24,7 +24,7 @@ func (C05) Plan(tier string) core.Plan {
 
 func (C05) Info() core.Info {
 	return core.Info{
-		Rule: "worlds in class (a): every converter has <=1 input value, with arbitrary cycles, bidirectional pairs and multi-output converters, or class (b): multi-input converters without cyclic dependencies, each firing in the EXPECT fixpoint; derivable (planned) and broken variants, and two-call histories (the call with a supply missing, then the full call, on the same converter objects, some of them run-once); a fault-free batch and a batch in which some converters fail at their k-th execution. Oracle 1 (completeness): target EXPECT-satisfiable => Call returns no error, or (faulty batch only) exactly an injected converter error. Oracle 2 (stability, fault-free batch): the same world under 10-48 seeded iteration-order schedules (canonical, reverse, rotate, uniform, mixed, adversarial single site) yields one outcome class. Non-trivial: >=2 converters; distinct = distinct (world shape, event-log hash)",
+		Rule: "worlds in class (a): every converter has <=1 input value, with arbitrary cycles, bidirectional pairs and multi-output converters, or class (b): multi-input converters without cyclic dependencies, each firing in the EXPECT fixpoint; derivable (planned) and broken variants, and two-call histories (the call with a supply missing, then the full call, on the same converter objects, some of them run-once); a fault-free batch and a batch in which some converters fail at their k-th execution. Oracle 1 (completeness): target EXPECT-satisfiable => Call returns no error, or (faulty batch only) exactly an injected converter error. Oracle 2 (stability, fault-free batch): the same world under 10-48 seeded iteration-order schedules (canonical, reverse, rotate, uniform, mixed, adversarial single site) yields one outcome class; also judged after a loadinput (the target's own Input() set filled by its owner). Non-trivial: >=2 converters; distinct = distinct (world shape, event-log hash)",
 		Assumptions: []string{
 			"EXPECT under-approximates what the documentation promises; between EXPECT and PERMIT neither success nor failure is demanded",
 			"converter dependency for class (b) is judged with PERMIT (conservative: more edges, fewer worlds qualify)",
